@@ -10,18 +10,19 @@ use pelite::Wrap;
 #[macro_export]
 macro_rules! with_any {
 	($st:expr, $k:expr, $g:ident, $p:ident => $body:expr) => {{
-		let $g = match $st.img.as_ref() { Some(g) => g, None => return "noimg".to_string() };
+		match $st.img.as_ref() { None => "noimg".to_string(), Some($g) => {
 		let bytes = $g.bytes();
-		let (kind, base) = match $k.find('@') { Some(i) => (&$k[..i], Some(num(&$k[i + 1..]))), None => (&$k[..], None) };
+		let (kind, base) = match $k.find('@') { Some(i) => (&$k[..i], Some($crate::util::num(&$k[i + 1..]))), None => (&$k[..], None) };
+		#[allow(unused_variables)] let base: Option<u64> = base;
 		match kind {
-			"f32" => match pelite::pe32::PeFile::from_bytes(bytes) { Ok($p) => { #[allow(unused_imports)] use pelite::pe32::{Pe, PeObject}; $body }, Err(e) => format!("noimg {}", errname(e)) },
-			"f64" => match pelite::pe64::PeFile::from_bytes(bytes) { Ok($p) => { #[allow(unused_imports)] use pelite::pe64::{Pe, PeObject}; $body }, Err(e) => format!("noimg {}", errname(e)) },
-			"v32" => match pelite::pe32::PeView::from_bytes(bytes) { Ok($p) => { #[allow(unused_imports)] use pelite::pe32::{Pe, PeObject}; let $p = match base { Some(b) => $p.set_base_address(b as u32), None => $p }; $body }, Err(e) => format!("noimg {}", errname(e)) },
-			"v64" => match pelite::pe64::PeView::from_bytes(bytes) { Ok($p) => { #[allow(unused_imports)] use pelite::pe64::{Pe, PeObject}; let $p = match base { Some(b) => $p.set_base_address(b), None => $p }; $body }, Err(e) => format!("noimg {}", errname(e)) },
-			"wf" => match pelite::PeFile::from_bytes(bytes) { Ok($p) => { $body }, Err(e) => format!("noimg {}", errname(e)) },
-			"wv" => match pelite::PeView::from_bytes(bytes) { Ok($p) => { $body }, Err(e) => format!("noimg {}", errname(e)) },
+			"f32" => match pelite::pe32::PeFile::from_bytes(bytes) { Ok($p) => { #[allow(unused_imports)] use pelite::pe32::{Pe, PeObject}; #[allow(dead_code)] type VaT = u32; $body }, Err(e) => format!("noimg {}", $crate::util::errname(e)) },
+			"f64" => match pelite::pe64::PeFile::from_bytes(bytes) { Ok($p) => { #[allow(unused_imports)] use pelite::pe64::{Pe, PeObject}; #[allow(dead_code)] type VaT = u64; $body }, Err(e) => format!("noimg {}", $crate::util::errname(e)) },
+			"v32" => match pelite::pe32::PeView::from_bytes(bytes) { Ok($p) => { #[allow(unused_imports)] use pelite::pe32::{Pe, PeObject}; #[allow(dead_code)] type VaT = u32; let $p = match base { Some(b) => $p.set_base_address(b as u32), None => $p }; $body }, Err(e) => format!("noimg {}", $crate::util::errname(e)) },
+			"v64" => match pelite::pe64::PeView::from_bytes(bytes) { Ok($p) => { #[allow(unused_imports)] use pelite::pe64::{Pe, PeObject}; #[allow(dead_code)] type VaT = u64; let $p = match base { Some(b) => $p.set_base_address(b), None => $p }; $body }, Err(e) => format!("noimg {}", $crate::util::errname(e)) },
+			"wf" => match pelite::PeFile::from_bytes(bytes) { Ok($p) => { $body }, Err(e) => format!("noimg {}", $crate::util::errname(e)) },
+			"wv" => match pelite::PeView::from_bytes(bytes) { Ok($p) => { $body }, Err(e) => format!("noimg {}", $crate::util::errname(e)) },
 			_ => "bad-op".to_string(),
-		}
+		} } }
 	}};
 }
 
@@ -30,24 +31,25 @@ macro_rules! with_any {
 #[macro_export]
 macro_rules! with_specific {
 	($st:expr, $k:expr, $g:ident, $p:ident => $body:expr) => {{
-		let $g = match $st.img.as_ref() { Some(g) => g, None => return "noimg".to_string() };
+		match $st.img.as_ref() { None => "noimg".to_string(), Some($g) => {
 		let bytes = $g.bytes();
-		let (kind, base) = match $k.find('@') { Some(i) => (&$k[..i], Some(num(&$k[i + 1..]))), None => (&$k[..], None) };
+		let (kind, base) = match $k.find('@') { Some(i) => (&$k[..i], Some($crate::util::num(&$k[i + 1..]))), None => (&$k[..], None) };
+		#[allow(unused_variables)] let base: Option<u64> = base;
 		match kind {
-			"f32" => match pelite::pe32::PeFile::from_bytes(bytes) { Ok($p) => { #[allow(unused_imports)] use pelite::pe32::{Pe, PeObject}; $body }, Err(e) => format!("noimg {}", errname(e)) },
-			"f64" => match pelite::pe64::PeFile::from_bytes(bytes) { Ok($p) => { #[allow(unused_imports)] use pelite::pe64::{Pe, PeObject}; $body }, Err(e) => format!("noimg {}", errname(e)) },
-			"v32" => match pelite::pe32::PeView::from_bytes(bytes) { Ok($p) => { #[allow(unused_imports)] use pelite::pe32::{Pe, PeObject}; let $p = match base { Some(b) => $p.set_base_address(b as u32), None => $p }; $body }, Err(e) => format!("noimg {}", errname(e)) },
-			"v64" => match pelite::pe64::PeView::from_bytes(bytes) { Ok($p) => { #[allow(unused_imports)] use pelite::pe64::{Pe, PeObject}; let $p = match base { Some(b) => $p.set_base_address(b), None => $p }; $body }, Err(e) => format!("noimg {}", errname(e)) },
+			"f32" => match pelite::pe32::PeFile::from_bytes(bytes) { Ok($p) => { #[allow(unused_imports)] use pelite::pe32::{Pe, PeObject}; #[allow(dead_code)] type VaT = u32; $body }, Err(e) => format!("noimg {}", $crate::util::errname(e)) },
+			"f64" => match pelite::pe64::PeFile::from_bytes(bytes) { Ok($p) => { #[allow(unused_imports)] use pelite::pe64::{Pe, PeObject}; #[allow(dead_code)] type VaT = u64; $body }, Err(e) => format!("noimg {}", $crate::util::errname(e)) },
+			"v32" => match pelite::pe32::PeView::from_bytes(bytes) { Ok($p) => { #[allow(unused_imports)] use pelite::pe32::{Pe, PeObject}; #[allow(dead_code)] type VaT = u32; let $p = match base { Some(b) => $p.set_base_address(b as u32), None => $p }; $body }, Err(e) => format!("noimg {}", $crate::util::errname(e)) },
+			"v64" => match pelite::pe64::PeView::from_bytes(bytes) { Ok($p) => { #[allow(unused_imports)] use pelite::pe64::{Pe, PeObject}; #[allow(dead_code)] type VaT = u64; let $p = match base { Some(b) => $p.set_base_address(b), None => $p }; $body }, Err(e) => format!("noimg {}", $crate::util::errname(e)) },
 			"wf" => match pelite::PeFile::from_bytes(bytes) {
-				Ok(Wrap::T32($p)) => { #[allow(unused_imports)] use pelite::pe32::{Pe, PeObject}; $body },
-				Ok(Wrap::T64($p)) => { #[allow(unused_imports)] use pelite::pe64::{Pe, PeObject}; $body },
-				Err(e) => format!("noimg {}", errname(e)) },
+				Ok(pelite::Wrap::T32($p)) => { #[allow(unused_imports)] use pelite::pe32::{Pe, PeObject}; #[allow(dead_code)] type VaT = u32; $body },
+				Ok(pelite::Wrap::T64($p)) => { #[allow(unused_imports)] use pelite::pe64::{Pe, PeObject}; #[allow(dead_code)] type VaT = u64; $body },
+				Err(e) => format!("noimg {}", $crate::util::errname(e)) },
 			"wv" => match pelite::PeView::from_bytes(bytes) {
-				Ok(Wrap::T32($p)) => { #[allow(unused_imports)] use pelite::pe32::{Pe, PeObject}; $body },
-				Ok(Wrap::T64($p)) => { #[allow(unused_imports)] use pelite::pe64::{Pe, PeObject}; $body },
-				Err(e) => format!("noimg {}", errname(e)) },
+				Ok(pelite::Wrap::T32($p)) => { #[allow(unused_imports)] use pelite::pe32::{Pe, PeObject}; #[allow(dead_code)] type VaT = u32; $body },
+				Ok(pelite::Wrap::T64($p)) => { #[allow(unused_imports)] use pelite::pe64::{Pe, PeObject}; #[allow(dead_code)] type VaT = u64; $body },
+				Err(e) => format!("noimg {}", $crate::util::errname(e)) },
 			_ => "bad-op".to_string(),
-		}
+		} } }
 	}};
 }
 
